@@ -19,10 +19,10 @@ Emitted data (all text is `list Z` of code points):
                               `if k not in self.throttle_per_user:` and stores a from_limits() object
   stream_stores_dict_by_reference : bool   ThrottleStreamIO.__init__ does `self.throttles = throttles`
   stream_ops : list (method * wait direction * append direction)  for read / readline / write
-  stream_wait_untimed : bool  ThrottleStreamIO.wait(name) is: one task `asyncio.create_task(t.wait())` per
-                              throttle of that direction under `if t.limit:`, then exactly one await,
-                              `await asyncio.wait(tasks)` with NO timeout / return_when (so it resumes
-                              when the last sleep ends, whatever read_timeout / write_timeout the stream has)
+  stream_wait_untimed : bool  ThrottleStreamIO.wait(name) creates one task `asyncio.create_task(t.wait())` per
+                              throttle and awaits ALL of them to completion (`asyncio.wait(tasks)` with no
+                              timeout / return_when, or an equivalent gather / loop), nothing in it is timed: it
+                              resumes when the last sleep ends, whatever read/write timeout the stream has
   per_user_never_removed : bool   self.throttle_per_user is only tested (`in` / `not in`), subscripted for
                               reading, and stored under the guard above: no pop / del / clear / re-assignment
                               (every other use of the attribute makes the translator fail closed)
@@ -304,22 +304,46 @@ def wait_shape(m):
                    tasks.append(asyncio.create_task(curr_throttle.wait()))
            if tasks:
                await asyncio.wait(tasks)
-    True iff the only await of the method is `asyncio.wait(<tasks>)` with one positional argument and no
-    keyword (no timeout=, no return_when=), <tasks> is a list only ever appended with
-    `asyncio.create_task(<x>.wait())`, and no wait_for / timeout construct appears in the method."""
+    True iff the method awaits ALL the throttle wait tasks to completion and nothing in it is timed:
+      * every await is `asyncio.wait(<tasks>)` (one positional argument, no timeout= / return_when=),
+        `asyncio.gather(*<tasks>)`, or `await <t>` inside `for <t> in <tasks>` -- equivalent ways of waiting
+        for the last sleep to end -- and there is at least one;
+      * <tasks> starts as [] and is only ever appended `asyncio.create_task(<x>.wait())`;
+      * no wait_for / asyncio.timeout / `with` block / attribute or string mentioning a timeout appears."""
     awaits = [n for n in ast.walk(m) if isinstance(n, ast.Await)]
-    if len(awaits) != 1:
+    if not awaits:
         return False
-    call = awaits[0].value
-    if not (
-        isinstance(call, ast.Call)
-        and ast.unparse(call.func) == "asyncio.wait"
-        and len(call.args) == 1
-        and isinstance(call.args[0], ast.Name)
-        and not call.keywords
-    ):
+    names = set()
+    for aw in awaits:
+        v = aw.value
+        if isinstance(v, ast.Call) and ast.unparse(v.func) == "asyncio.wait":
+            if len(v.args) != 1 or not isinstance(v.args[0], ast.Name) or v.keywords:
+                return False
+            names.add(v.args[0].id)
+        elif isinstance(v, ast.Call) and ast.unparse(v.func) == "asyncio.gather":
+            if len(v.args) != 1 or not isinstance(v.args[0], ast.Starred) or not isinstance(v.args[0].value, ast.Name):
+                return False
+            if any(kw.arg != "return_exceptions" for kw in v.keywords):
+                return False
+            names.add(v.args[0].value.id)
+        elif isinstance(v, ast.Name):
+            par = aw
+            loop = None
+            while hasattr(par, "_parent"):
+                par = par._parent
+                if isinstance(par, ast.For) and isinstance(par.target, ast.Name) and par.target.id == v.id:
+                    loop = par
+                    break
+            if loop is None or not isinstance(loop.iter, ast.Name) or loop.orelse:
+                return False
+            if any(isinstance(n, (ast.Break, ast.Continue, ast.Return)) for n in ast.walk(loop)):
+                return False
+            names.add(loop.iter.id)
+        else:
+            return False
+    if len(names) != 1:
         return False
-    tasks = call.args[0].id
+    tasks = names.pop()
     inits = [
         n for n in ast.walk(m)
         if isinstance(n, ast.Assign) and any(isinstance(t, ast.Name) and t.id == tasks for t in n.targets)
@@ -335,7 +359,7 @@ def wait_shape(m):
             a = n.args[0]
             ok = (
                 isinstance(a, ast.Call)
-                and ast.unparse(a.func) == "asyncio.create_task"
+                and ast.unparse(a.func) in ("asyncio.create_task", "asyncio.ensure_future")
                 and len(a.args) == 1
                 and not a.keywords
                 and isinstance(a.args[0], ast.Call)
@@ -349,9 +373,7 @@ def wait_shape(m):
             appended += 1
         if isinstance(n, (ast.With, ast.AsyncWith)):
             return False
-        if isinstance(n, ast.Attribute) and n.attr in ("wait_for", "timeout", "timeout_at"):
-            return False
-        if isinstance(n, ast.Attribute) and "timeout" in n.attr:
+        if isinstance(n, ast.Attribute) and (n.attr in ("wait_for", "timeout_at") or "timeout" in n.attr):
             return False
         if isinstance(n, ast.Constant) and isinstance(n.value, str) and "timeout" in n.value and not isinstance(
             getattr(n, "_parent", None), ast.Expr
